@@ -66,11 +66,11 @@ type fnInfo struct {
 	name string
 	pkg  string
 	// call dispatch, computed once per function
-	model     modelFn
-	stub      bool
-	isInit    bool
-	interpOK  bool
-	pkgPath   string
+	model    modelFn
+	stub     bool
+	isInit   bool
+	interpOK bool
+	pkgPath  string
 }
 
 var fnInfos = map[*ssa.Function]*fnInfo{}
